@@ -7,6 +7,7 @@
    cryptographic assumption is made anywhere. *)
 From Coq Require Import List NArith Bool.
 From RV Require Import Cluster.Auth Cluster.AuthProofs Cluster.Gate Cluster.GateProofs.
+From RV Require Cluster.Elect Cluster.Listed Cluster.ListedProofs.
 Import ListNotations.
 Local Open Scope N_scope.
 
@@ -160,6 +161,16 @@ Theorem C17_closed_oracle_sound : forall dg cfg l st closed,
   check_C17_closed (obs_closed_of_log (run_log dg cfg st l)) closed = true.
 Proof. exact check_C17_closed_sound. Qed.
 
+(* ---------- (3) the node server: GetSessions lists authenticated sessions only ---------- *)
+
+(* on C18's table model (Cluster/Elect.v): for every history of table operations, a
+   session is listed by GetSessions only if ConnectionAuthenticated (TCommit) was
+   received for it earlier - and by C17_gate's model a session sends that message
+   only in the step in which it enters Ok *)
+Theorem C17_getsessions_auth_only : forall this ops id,
+  In id (Listed.listed (fst (Elect.trun (Elect.mkTable this []) ops))) -> In id (Listed.committed ops).
+Proof. exact ListedProofs.listed_needs_commit. Qed.
+
 (* ---- statement pins ---- *)
 Check (C17_close_absorbing_server : forall dg ck ops, s_run dg ck SClose ops = SClose).
 Check (C17_close_absorbing_client : forall dg ck ops, c_run dg ck CClose ops = CClose).
@@ -232,6 +243,11 @@ Example ex_gate_wrong_cookie :
         (NAuth (AClientChallenge 5 (dg_sym 0 77)), ex_env 0); (NNode (MCast 7), ex_env 0)]) = false.
 Proof. vm_compute; reflexivity. Qed.
 
+Example ex_listed :
+  Listed.listed (fst (Elect.trun (Elect.mkTable 2 [])
+     [Elect.TOpen 1 true; Elect.TOpen 2 true; Elect.TRegister 1 1 0; Elect.TRegister 2 5 0; Elect.TCommit 2])) = [2].
+Proof. vm_compute; reflexivity. Qed.
+
 Print Assumptions C17_close_absorbing_server.
 Print Assumptions C17_close_absorbing_client.
 Print Assumptions C17_close_forever_server.
@@ -253,3 +269,4 @@ Print Assumptions C17_session_ok_needs_digest.
 Print Assumptions C17_ok_stable.
 Print Assumptions C17_oracle_sound.
 Print Assumptions C17_closed_oracle_sound.
+Print Assumptions C17_getsessions_auth_only.
